@@ -286,8 +286,57 @@ func pexprLevel(e Node) int {
 	return 100
 }
 
+func renderToks(toks []Node) string {
+	parts := make([]string, 0, len(toks))
+	for _, t := range toks {
+		switch nstr(t, "t") {
+		case "num":
+			parts = append(parts, fmt.Sprintf("%d", nint(t, "n")))
+		case "str":
+			parts = append(parts, quote(nbytes(t, "s")))
+		case "w", "op":
+			parts = append(parts, nstr(t, "v"))
+		case "lp":
+			parts = append(parts, "(")
+		case "rp":
+			parts = append(parts, ")")
+		}
+	}
+	return strings.Join(parts, " ")
+}
+
+// stripToks removes the concrete-syntax wrappers [k:"toks"] from a tree
+func stripToks(v any) any {
+	switch x := v.(type) {
+	case map[string]any:
+		if nstr(x, "k") == "toks" {
+			return stripToks(x["e"])
+		}
+		out := map[string]any{}
+		for k, e := range x {
+			out[k] = stripToks(e)
+		}
+		return out
+	case []any:
+		out := make([]any, len(x))
+		for i, e := range x {
+			out[i] = stripToks(e)
+		}
+		return out
+	case []Node:
+		out := make([]any, len(x))
+		for i, e := range x {
+			out[i] = stripToks(e)
+		}
+		return out
+	}
+	return v
+}
+
 func renderPExprPrec(e Node, full bool, ctx int, right bool) string {
 	switch nstr(e, "k") {
+	case "toks":
+		return renderToks(nlist(e, "toks"))
 	case "str":
 		return quote(nbytes(e, "v"))
 	case "num":
